@@ -57,6 +57,7 @@ fn dispatch(t: &[&str]) -> String {
         "esc" | "tok" => lexical::run(t),
         "lit" => literal::run(t),
         "iden" => ident::run(t),
+        "idenderived" => ident::run_derived(t),
         "idenpos" => ident::POSITIONS.join(" "),
         "tk" | "tkv" => takes::run(t),
         "tktypes" => takes::types(),
